@@ -14,7 +14,7 @@ def gen(ctx):
     changed = gen_c07.generate(vlib.REPO, vlib.COQ)
     ctx.notes.append("Gen/C07_grammar_gen.v %s" % ("rewritten" if changed else "unchanged"))
     # T4 (panic-site scanner over the anchored files)
-    sites = gen_c08.generate(vlib.REPO, vlib.VERIF)
+    sites = gen_c08.generate(vlib.REPO, vlib.gen_root())
     kinds = {}
     for (f, fn, k, d), c in sites:
         kinds[k] = kinds.get(k, 0) + c
